@@ -4,6 +4,6 @@ CONSTANTS
   CFGS <- CfgSim
   MAXT = 12
   DEPTH = 40
-  MAXNEWS = 2
+  MAXNEWS = 3
 INVARIANTS Emit
 CHECK_DEADLOCK FALSE
